@@ -345,7 +345,9 @@ func runC17(t *testing.T, scAny any, trace bool) *Outcome {
 							simrt.Probe("connection_refused_service_at_limit")
 						}
 						// a connection that was being served and active is not closed without reason
-						if cc.answered && adminStarted.Load() == 0 && idleChangedAt.Load() == 0 && maxStall == 0 && sentAt-cc.lastAct < effIdle/2 && sentAt-cc.lastAct < 10*time.Second {
+						if cc.answered && adminStarted.Load() == 0 && idleChangedAt.Load() == 0 && maxStall == 0 && sentAt-cc.lastAct < effIdle/2 && sentAt-cc.lastAct < 10*time.Second && effIdle >= 100*time.Millisecond {
+							// (below 100 ms the scheduler's injected delays - up to 2 ms per unlock - can by themselves
+							// keep a request in the server longer than the idle time-out)
 							o.Vio("C17.active-connection-closed", "op="+stp.Op, "client %d step %d: connection answered before and active %v ago (IdleTimeout %v) got no reply to %s: %v", ci, si, sentAt-cc.lastAct, effIdle, stp.Op, err)
 						}
 						return
@@ -475,7 +477,9 @@ func runC17(t *testing.T, scAny any, trace bool) *Outcome {
 			c17Released(o, w, "close", when)
 		}
 		// bounded liveness once the faults have stopped: a server that nobody stopped still accepts and serves
-		if adminStarted.Load() == 0 && maxStall < time.Second {
+		if adminStarted.Load() == 0 && maxStall < time.Second && time.Duration(idleNow.Load()) >= time.Second {
+			// (with an idle time-out of nanoseconds to milliseconds the reaper may legitimately close a connection
+			// before its first call has been read)
 			o.Tick()
 			if pc, err := w.Dial("10.0.0.1:650", RootCred, nil); err != nil {
 				o.Vio("C17.not-serving-after-faults", "dial", "after all clients had gone (no Stop/Close issued) a new connection was refused: %v", err)
